@@ -130,6 +130,8 @@ def build(v, env, ghost_fn):
 def encode(v, depth=0):
     """real value -> JSON structure comparable with pyvc's concrete interpreter results"""
     import enum
+    if isinstance(v, enum.Flag):
+        return {'$flag': type(v).__name__, 'bits': v.value}
     if isinstance(v, enum.Enum):
         return {'$enum': type(v).__name__, 'member': v.name}
     if v is None or isinstance(v, (bool, int, str)):
